@@ -438,17 +438,36 @@ def rule_sign(m):
                             if at[0] == 'bin' and at[1] in ('<', '>=') and strip_cast(at[3]) == ('int', 0):
                                 if (at[1] == '<' and not pol) or (at[1] == '>=' and pol):
                                     ok = True
-                    # a throw under `v < 0` also establishes it for the code after the if
+                    # a branch on `v < 0` whose true edge can only end in a throw also establishes it for every return
                     if not ok:
-                        for n in lam.nodes:
-                            if n['k'] == 'CXXThrowExpr':
-                                for dep in lam.region(n['i']):
-                                    t = ltt.t(lam.branch_atom(dep[0]))
-                                    for (at, pol) in _implied_any(t, dep[1] == 0):
-                                        at = strip_conv_call(at)
-                                        if at[0] == 'bin' and at[1] == '<' and strip_cast(at[3]) == ('int', 0) and pol and \
-                                                lam.node_dominates(lam.branch_atom(dep[0]), r['i']):
-                                            ok = True
+                        for bid, blk in lam.blocks.items():
+                            a0 = lam.branch_atom(bid) if len(blk.succs) == 2 else None
+                            if a0 is None:
+                                continue
+                            at = strip_conv_call(_pc3.unconst(ltt.t(a0)))
+                            edge = None
+                            if at[0] == 'bin' and at[1] == '<' and strip_cast(at[3]) == ('int', 0):
+                                edge = 0
+                            elif at[0] == 'bin' and at[1] == '>=' and strip_cast(at[3]) == ('int', 0):
+                                edge = 1
+                            if edge is None or blk.succs[edge] is None or blk.succs[edge] < 0:
+                                continue
+                            # every path from that edge ends in a throw before any return
+                            stack, seen_b, escapes = [blk.succs[edge]], set(), False
+                            while stack:
+                                b2 = stack.pop()
+                                if b2 in seen_b:
+                                    continue
+                                seen_b.add(b2)
+                                kinds = [lam.nodes[e]['k'] for e in lam.blocks[b2].elems]
+                                if 'CXXThrowExpr' in kinds:
+                                    continue
+                                if 'ReturnStmt' in kinds or b2 == lam.exit:
+                                    escapes = True
+                                    break
+                                stack.extend(x for x in lam.blocks[b2].succs if x is not None and x >= 0)
+                            if not escapes and lam.node_dominates(a0, r['i']):
+                                ok = True
                     checked = checked and ok
                 if not checked:
                     why = 'the signed result of %s is returned as an unsigned vertex index without a check for negative ' \
